@@ -116,6 +116,14 @@ func scenarioC05(r *Run) {
 			}
 		}
 	}
+	// A decoy upstream listed first (sampled): it names another host and is unreachable, so the client
+	// fails over to the real one. What the client demands of the real upstream must not depend on what it
+	// tried before (the cell's expectation is unchanged).
+	decoy := []string{"", "", "tcp+tls://other.test:9", "wss://other.test:9/ws/all", "tcp://other.test:9", "tcp+tls://10.9.9.9:9"}[c.Pick(6, "decoy-upstream")]
+	if decoy != "" {
+		cfg.PreUpstreams = []string{decoy}
+	}
+	r.Info["decoy_upstream_first"] = decoy
 	cfg.Channels = []ChanCfg{{Name: "alpha", Target: "tcp://" + TargetIP + ":7001"}}
 	lsn := LsnCfg{Channel: "alpha", Kind: "tcp", Addr: "127.0.0.1:6001"}
 	cfg.Listeners = []LsnCfg{lsn}
